@@ -1238,7 +1238,14 @@ def locked_decorator(ctx, interp, fr, d, node):
         lock_acquire(c, lockref, node)
         if isinstance(d, ast.Call):
             for a in d.args:
-                pf = interp.eval(c, fr, a)
+                pf = None
+                if isinstance(a, ast.Name) and fr.clsq is not None and a.id not in fr.locals:
+                    # a precondition named in the class body (MappingStorage: @locked(opened))
+                    q, pfn = source.find_method(fr.clsq, a.id)
+                    if pfn is not None:
+                        pf = VFunc('repo', q)
+                if pf is None:
+                    pf = interp.eval(c, fr, a)
                 interp.call_value(c, pf, [selfv], {}, node, fr)
 
     def exit_(c):
